@@ -371,6 +371,25 @@ func c03Views(c *fw.Ctx, i int) {
 		c.Fail("C03/view/"+kind+"/marshalsize", fmt.Sprintf("MarshalSize = %d, block is %d bytes", msz, len(block)), wit())
 		return
 	}
+	// a destination of exactly MarshalSize() bytes is sufficient
+	exact := make([]byte, len(block))
+	var exn int
+	var exerr error
+	if pv, st := fw.Guard(func() { exn, exerr = view.MarshalTo(exact) }); pv != nil {
+		c.Fail("C03/view/"+kind+"/panic/"+fw.PanicFunc(st), fmt.Sprintf("MarshalTo panicked on an exact-size destination: %v", pv), wit("stack", st))
+		return
+	}
+	if exerr != nil || exn != len(block) || !bytes.Equal(exact, block) {
+		c.Fail("C03/view/"+kind+"/marshalto-exact-size-destination", fmt.Sprintf("MarshalTo into a destination of exactly MarshalSize() bytes: n=%d err=%v", exn, exerr), wit())
+		return
+	}
+	if len(block) > 0 {
+		short := make([]byte, len(block)-1)
+		if pv, st := fw.Guard(func() { _, exerr = view.MarshalTo(short) }); pv != nil {
+			c.Fail("C03/view/"+kind+"/panic/"+fw.PanicFunc(st), fmt.Sprintf("MarshalTo panicked on a short destination: %v", pv), wit("stack", st))
+			return
+		}
+	}
 	if mterr != nil || mtn != len(block) || !bytes.Equal(mt[:len(block)], block) || !bytes.Equal(mt[len(block):], []byte{0xA5, 0xA5, 0xA5, 0xA5}) {
 		c.Fail("C03/view/"+kind+"/marshalto-not-identical", "MarshalTo does not reproduce the block byte for byte (or wrote beyond it)", wit("got", fw.Hex(mt), "n", mtn))
 		return
